@@ -118,7 +118,7 @@ CondStep(rs, line) ==
 
 ExecStep(rs, line) ==
   CASE BadLine(line) -> Fail(rs, line.ln)     \* a macro parameter without argument, in a line that is assembled
-    [] line.k = "blank" -> WithLabel(rs, line)
+    [] line.k \in {"blank", "noop"} -> WithLabel(rs, line)      \* noop: a directive without effect on the images (.pragma, .list, ...)
     [] line.k \in ItemKinds -> EmitItem(rs, line)
     [] line.k = "equ"    -> [WithLabel(rs, line) EXCEPT !.equs = (line.n :> line.e) @@ @]
     [] line.k = "define" -> [rs EXCEPT !.defines = @ \cup {line.n}]
